@@ -1,0 +1,21 @@
+//go:build verif
+
+package mattermost
+
+// Contracts for govc (contract-based deductive verification). Comment-only file.
+
+// C20: this integration's verdicts on the send. A request that fails in transport is recoverable (the retry stage tries
+// again until the flush deadline); once there is a response its status decides through Retrier.Check: a refused
+// response fails the delivery with the retrier's recoverable flag, an accepted one is a success (and only then is the
+// notification recorded).
+//@ func (*Notifier).Notify
+//@   props C20
+//@   nosafe
+//@   abstract
+//@   after call notify.RedactURL assume (res0 != nil) == (arg0 != nil)
+//@   after call notify.NewErrorWithReason assume res0 != nil
+//@   ensures [a-transport-failure-is-recoverable] called("dynamic:field:postJSONFunc") && ret1("dynamic:field:postJSONFunc") != nil ==> result0 && result1 != nil && !called("Retrier).Check")
+//@   ensures [a-response-is-judged-by-its-status] called("dynamic:field:postJSONFunc") && ret1("dynamic:field:postJSONFunc") == nil ==> called("Retrier).Check")
+//@   ensures [a-refused-response-fails-with-the-retrier_s-verdict] called("Retrier).Check") && ret1("Retrier).Check") != nil ==> result1 != nil && result0 == ret("Retrier).Check")
+//@   ensures [an-accepted-response-is-success] called("Retrier).Check") && ret1("Retrier).Check") == nil ==> result1 == nil
+//@   noeffect dynamic:field:postJSONFunc Retrier).Check notify.RedactURL notify.NewErrorWithReason notify.GetFailureReasonFromStatusCode notify.Drain
